@@ -64,7 +64,7 @@ func has(l []string, s string) bool {
 	return false
 }
 
-var scalarFamilies = []string{"quad", "sepconv", "logistic", "rosen"}
+var scalarFamilies = []string{"quad", "sepconv", "quartic", "logistic", "rosen"}
 
 var routines = []*routine{
 	{name: "bfgs", families: scalarFamilies, variants: []string{""}, hookKind: "gy", iterBy: "eval", consOpt: true, hookOpt: true, smallCap: 3, bigCap: 60, epsDiv: 1, run: runBfgs},
